@@ -41,6 +41,17 @@ def _expiry_tests(cfg: Any, now: Optional[str] = None) -> List[Tuple[Any, bool]]
     return out
 
 
+def _is_filtered_reader(g: FuncInfo) -> bool:
+    """Every element `g` collects (append) is reached only through the live edge of `record.is_expired(now)` with g's own
+    time parameter, and what it returns is the list it collected into."""
+    cfg = cfg_of(g.node)
+    app = cfg.nodes_calling('append')
+    if not app:
+        return False
+    guards = [(t, live) for p_ in g.params[1:] for t, live in _expiry_tests(cfg, p_)]
+    return all(any(cfg.only_through_edge(t, live, a) for t, live in guards) for a in app)
+
+
 @rule('C18.EXPIRY', 'D', expect_min=8)
 def expiry(ctx: Any) -> List[Ob]:
     """Result-field writer table of a service description: outside the constructor
@@ -52,6 +63,7 @@ def expiry(ctx: Any) -> List[Ob]:
     prog = ctx.prog
     info = prog.cls(INFO)
     obs: List[Ob] = []
+    readers: Dict[str, FuncInfo] = {}
     for f in list(info.methods.values()) + list(info.setters.values()):
         me = f.params[0] if f.params else 'self'
         qual = f.qual.split('.', 1)[1]
@@ -84,19 +96,18 @@ def expiry(ctx: Any) -> List[Ob]:
             ok = any(cfg.only_through_edge(t, live, n) for t, live in guards)
             why = 'dominated by `if record.is_expired(now): return`' if ok else ''
             if not ok and isinstance(n.ast, ast.Assign):
-                # value comes from the expiry-filtered cache reader
-                v = n.ast.value
-                calls = [c for c in ast.walk(v) if isinstance(c, ast.Call)]
-                if any(call_name(c) == '_get_ip_addresses_from_cache_lifo' for c in calls):
-                    ok, why = True, 'assigned from the expiry-filtered cache reader'
+                # the value is what a method of the class collected from the cache, each element behind the live edge of an
+                # expiry test (an expiry-filtered reader, found by what it does, whatever it is called)
+                for c in ast.walk(n.ast.value):
+                    if isinstance(c, ast.Call) and isinstance(c.func, ast.Attribute) and isinstance(c.func.value, ast.Name) and c.func.value.id == me and c.func.attr in info.methods:
+                        h = info.methods[c.func.attr]
+                        if _is_filtered_reader(h):
+                            ok, why = True, f'assigned from the expiry-filtered cache reader {h.name}'
+                            readers[h.qual] = h
             obs.append(ob(R, f, text, 'a result field is written only from a record that had not expired when it was read', ok, why))
-    # the filtered reader really filters
-    g = info.methods['_get_ip_addresses_from_cache_lifo']
-    cfg = cfg_of(g.node)
-    now = g.params[2]
-    app = cfg.nodes_calling('append')
-    guards2 = _expiry_tests(cfg, now)
-    obs.append(ob(R, g, 'if record.is_expired(now): continue', 'addresses loaded from the cache skip expired records', bool(app) and all(any(cfg.only_through_edge(t, live, a) for t, live in guards2) for a in app)))
+    # the filtered readers really filter
+    for g in readers.values():
+        obs.append(ob(R, g, 'if record.is_expired(now): continue', 'addresses loaded from the cache skip expired records', _is_filtered_reader(g)))
     # _set_text callers
     st = info.methods['_set_text']
     callers = {s.caller.qual.split('.', 1)[1] for s in ctx.cg.callers_of(st)}
@@ -388,14 +399,41 @@ def bound(ctx: Any) -> List[Ob]:
     obs.append(ob(R, lc, f'cache lookups: {rows}', 'SRV and TXT are looked up under the instance name, class IN', rows == [(f'{lc.params[0]}._name', 33, 1), (f'{lc.params[0]}._name', 16, 1)]))
     # all cached addresses of the host are loaded: the A / AAAA scan runs whenever the host is the one already known (it may be
     # skipped only when an SRV has just changed the host, because that branch reloads the lists itself)
+    SCAN = '_get_address_records_from_cache_by_type'
+    info_cls = prog.cls(INFO)
+
+    def scan_types(c: ast.Call, g: FuncInfo, depth: int = 2) -> Set[Any]:
+        """Address types whose cached records the call reads: a direct scan (type argument folded; a loop variable over a
+        constant tuple stands for all its elements), or a helper of the class that scans."""
+        if call_name(c) == SCAN and len(c.args) >= 2:
+            a = c.args[1]
+            ok_, v = prog.try_fold(g.module, a)
+            if ok_:
+                return {v}
+            if isinstance(a, ast.Name):
+                out_: Set[Any] = set()
+                for lp in walk_local_ordered(g.node):
+                    if isinstance(lp, ast.For) and isinstance(lp.target, ast.Name) and lp.target.id == a.id and isinstance(lp.iter, (ast.Tuple, ast.List)):
+                        out_ |= {prog.try_fold(g.module, e_)[1] for e_ in lp.iter.elts if prog.try_fold(g.module, e_)[0]}
+                return out_ or {'?'}
+            return {'?'}
+        if depth > 0 and isinstance(c.func, ast.Attribute) and isinstance(c.func.value, ast.Name) and c.func.value.id == g.params[0] and c.func.attr in info_cls.methods and c.func.attr not in ('_process_record_threadsafe',):
+            h = info_cls.methods[c.func.attr]
+            out2: Set[Any] = set()
+            for c2 in walk_local_ordered(h.node):
+                if isinstance(c2, ast.Call):
+                    out2 |= scan_types(c2, h, depth - 1)
+            return out2
+        return set()
+
     def eff_l(node: Any, evl: Any) -> List[Any]:
-        return ['SCAN' for c in fd.node_calls(node, evl) if call_name(c) == '_get_address_records_from_cache_by_type']
+        return [f'SCAN:{t_}' for c in fd.node_calls(node, evl) for t_ in sorted(scan_types(c, lc), key=str)]
 
     lme = lc.params[0]
     for srv_cached in (True, False):
         ocl, undl = traces(ctx, lc, {f'{lme}.server_key': 'host-key', '.get_by_details()': fd.Sym('rec') if srv_cached else None}, eff_l, loop_bound=1, for_iter=lambda n, e: False)
-        scans = {strip_ret(t).count('SCAN') for t in ocl}
-        obs.append(ob(R, lc, f'host unchanged, SRV {"cached" if srv_cached else "not cached"}', 'both address types of the known host are read from the cache (2 scans)', scans == {2}, f'scans on the feasible paths: {sorted(scans)}; undecided {undl}'))
+        scans = {tuple(sorted(x for x in strip_ret(t) if isinstance(x, str) and x.startswith('SCAN:'))) for t in ocl}
+        obs.append(ob(R, lc, f'host unchanged, SRV {"cached" if srv_cached else "not cached"}', 'both address types of the known host are read from the cache (A and AAAA scanned on every path)', bool(scans) and all(set(sc) >= {'SCAN:1', 'SCAN:28'} for sc in scans), f'scans on the feasible paths: {sorted(scans)}; undecided {undl}'))
     ret = [r for r in walk_local_ordered(lc.node) if isinstance(r, ast.Return)]
     obs.append(ob(R, lc, ret[0].value if ret else 'return', 'the cache suffices iff the description is complete afterwards', len(ret) == 1 and norm(ret[0].value) == f'{lc.params[0]}._is_complete'))
     return obs
@@ -406,17 +444,12 @@ def cachekeys(ctx: Any) -> List[Ob]:
     """`cache-first` and `omitting questions whose answers it already holds` for names as users spell them: the lookup hands
     the instance name and the host name to the cache as spelled, so every cache read method it calls must lower-case the
     name before it indexes (the C05.KEYS obligations restricted to the methods the lookup calls)."""
-    from .c05 import keys as c05_keys
+    from .c05 import cache_methods_reached, keys as c05_keys
 
     R = 'C18.CACHEKEYS'
     prog = ctx.prog
     info_c = prog.cls(INFO)
-    called = set()
-    for m in info_c.methods.values():
-        for cs in ctx.cg.sites_in(m):
-            for t in cs.targets:
-                if t.cls is not None and t.cls.full == 'zeroconf._cache.DNSCache':
-                    called.add(t.qual)
+    called = cache_methods_reached(ctx, list(info_c.methods.values()))
     if len(called) < 2:
         raise AnalysisError(f'anchor vanished: cache methods called by the lookup (found {sorted(called)})')
     out = [o for o in c05_keys.fn(ctx) if str(o.function) in called]
